@@ -18,6 +18,12 @@ def theorems(prop):
         src = re.sub(r"/-.*?-/", "", src, flags=re.S)
         src = re.sub(r"--.*", "", src)
         out += re.findall(r"^theorem\s+([A-Za-z0-9_.']+)", src, flags=re.M)
+    cap = os.path.join(d, "Capstone.lean")
+    if os.path.exists(cap):
+        src = open(cap).read()
+        src = re.sub(r"/-.*?-/", "", src, flags=re.S)
+        src = re.sub(r"--.*", "", src)
+        out += [n for n in re.findall(r"^theorem\s+([A-Za-z0-9_.']+)", src, flags=re.M) if n.startswith(prop + "_")]
     return out
 
 
